@@ -1218,6 +1218,259 @@ def f49():
 KNOWN_FOR: Dict[str, List[str]] = {}
 
 
+def _f52_body():
+    import stackscope
+
+    class Bad:
+        def __repr__(self):
+            raise RuntimeError("no repr")
+
+    def gen():
+        yield 1
+
+    g = gen()
+    next(g)
+    good = stackscope.extract(g)
+    st = stackscope.extract(Bad())
+    kid = stackscope.Stack(root=Bad(), frames=list(stackscope.extract(g).frames), leaf=None, error=None)
+    good.frames[0].contexts = [stackscope.Context(obj=None, is_async=False, children=[kid, stackscope.Context(obj=Bad(), is_async=False)])]
+    bad = []
+    for name, s in (("extract(<object whose repr raises>)", st), ("a stack with such a child task root and child context", good)):
+        for what, fn in (("format()", lambda s=s: s.format()), ("str()", lambda s=s: str(s)), ("format_flat()", lambda s=s: s.format_flat()),
+                         ("format_flat(show_contexts=True)", lambda s=s: s.format_flat(show_contexts=True))):
+            try:
+                out = fn()
+                lines = out if isinstance(out, list) else out.splitlines(True)
+                if not all(l.endswith("\n") for l in lines):
+                    bad.append(f"{what} of {name}: a line is not newline-terminated")
+            except Exception as e:  # noqa: BLE001
+                bad.append(f"{what} of {name} raised {type(e).__name__}: {e}")
+    return bad
+
+
+@witness("F52", "C05")
+def f52():
+    bad = _f52_body()
+    return ("F52: the result of extract() cannot be formatted: " + "; ".join(bad[:3])) if bad else None
+
+
+@witness("F52b", "C18")
+def f52b():
+    bad = _f52_body()
+    return ("F52: format() does not return lines: " + "; ".join(bad[:3])) if bad else None
+
+
+@witness("F52c", "C19")
+def f52c():
+    bad = [b for b in _f52_body() if "format_flat" in b]
+    return ("F52: format_flat() does not return lines: " + "; ".join(bad[:3])) if bad else None
+
+
+@witness("F53", "C04")
+def f53():
+    import stackscope
+
+    class NS:
+        def __init__(s):
+            s.d = {}
+
+        def __getitem__(s, k):
+            return s.d[k]
+
+        def __setitem__(s, k, v):
+            s.d[k] = v
+
+    res = {}
+
+    def leaf():
+        res["st"] = stackscope.extract_since(None, with_contexts=False)
+
+    def level():
+        leaf()
+
+    def outer():
+        exec(compile("level()", "<rule>", "exec"), {"level": level}, NS())
+
+    outer()
+    st = res["st"]
+    names = [f.funcname for f in st.frames]
+    if names[-2:] != ["level", "leaf"] or st.error is not None:
+        return (f"F53: a frame with a minimal-mapping f_locals on the calling stack: extract_since(None) ends in {names[-3:]} with error "
+                f"{st.error!r}; the calling thread's frames go on to level and leaf")
+    return None
+
+
+@witness("F55", "C20")
+def f55():
+    import sys
+    import threading
+    import stackscope
+    from stackscope import _lowlevel as ll
+    from stackscope.lowlevel import set_trickery_enabled
+
+    class M:
+        def __enter__(s):
+            return s
+
+        def __exit__(s, *a):
+            return False
+
+    def gen():
+        with M() as the_manager:  # noqa: F841
+            yield
+
+    g = gen()
+    next(g)
+    set_trickery_enabled(True)
+    stackscope.extract(g)
+    code = ll._check_trickery_available.__code__
+    state = {"lines": 0, "ran": False}
+
+    def local(frame, event, arg):
+        if event == "line":
+            state["lines"] += 1
+            if state["lines"] == 2 and not state["ran"]:
+                # another thread's set_trickery_enabled(None) completes here, between two steps of the fast path
+                state["ran"] = True
+                t = threading.Thread(target=set_trickery_enabled, args=(None,))
+                t.start()
+                t.join()
+        return local
+
+    def tracer(frame, event, arg):
+        return local if frame.f_code is code else None
+
+    sys.settrace(tracer)
+    try:
+        st = stackscope.extract(g)
+    finally:
+        sys.settrace(None)
+    ctx = st.frames[0].contexts
+    after = stackscope.extract(g).frames[0].contexts
+    if not state["ran"]:
+        return "F55: harness: the window was not reached"
+    if not ctx or ctx[0].varname != "the_manager" or not after or after[0].varname != "the_manager":
+        return (f"F55: set_trickery_enabled(None) completing on another thread inside _check_trickery_available's fast path (setting before: "
+                f"True, after: auto-detect = True here): this extraction reports varname {ctx[0].varname if ctx else None!r} (the referents "
+                f"analysis, no warning), the next one {after[0].varname if after else None!r}")
+    return None
+
+
+def _f56_body(mode):
+    import types
+    import stackscope
+    from stackscope.lowlevel import set_trickery_enabled
+
+    set_trickery_enabled(mode)
+
+    @types.coroutine
+    def trap():
+        yield
+
+    class KwOnly:
+        async def __aenter__(s):
+            return s
+
+        async def __aexit__(*args, note="not a manager"):
+            await trap()
+
+    class StarOnly:
+        async def __aenter__(s):
+            return s
+
+        async def __aexit__(*args):
+            await trap()
+
+    class SyncStar:
+        def __enter__(s):
+            return s
+
+        def __exit__(*args, flag=0):
+            import stackscope as ss
+            args[0].seen = ss.extract(ss.StackSlice(), with_contexts=True)
+
+    bad = []
+    for cls in (KwOnly, StarOnly):
+        m = cls()
+
+        async def f():
+            async with m:
+                pass
+
+        c = f()
+        c.send(None)
+        ctx = stackscope.extract(c).frames[0].contexts[-1]
+        if not ctx.is_exiting or ctx.obj is not m:
+            bad.append(f"{cls.__name__}.__aexit__{'(*args, note=...)' if cls is KwOnly else '(*args)'} suspended: is_exiting={ctx.is_exiting} "
+                       f"obj={ctx.obj!r}")
+    m = SyncStar()
+
+    def user():
+        with m:
+            pass
+
+    user()
+    fr = [f for f in m.seen.frames if f.funcname == "user"]
+    if not fr or not fr[0].contexts or fr[0].contexts[-1].obj is not m:
+        bad.append(f"SyncStar.__exit__(*args, flag=0) running: obj={fr[0].contexts[-1].obj if fr and fr[0].contexts else None!r}")
+    return bad
+
+
+@witness("F56", "C20")
+def f56():
+    bad = _f56_body(False)
+    return ("F56: referents mode: the exiting entry's obj is not the manager whose exit is in progress: " + "; ".join(bad)) if bad else None
+
+
+@witness("F56b", "C02")
+def f56b():
+    bad = _f56_body(True)
+    return ("F56: the exiting entry's obj is not the manager whose exit is in progress: " + "; ".join(bad)) if bad else None
+
+
+@witness("F57", "C08")
+def f57():
+    import contextlib
+    import stackscope
+
+    class NS:
+        pass
+
+    class Base:
+        ns = NS()
+        table = {}
+
+        def get(self, k):
+            return self.ns
+
+    class K(Base):
+        def run(self):
+            cm = contextlib.nullcontext(1)
+            k = "k"
+            mgr = cm
+            out = {}
+
+            def probe(tag):
+                st = stackscope.extract(stackscope.StackSlice(), with_contexts=True)
+                fr = [f for f in st.frames if f.funcname == "run"][0]
+                out[tag] = fr.contexts[-1].varname
+
+            with cm as super().ns.x:
+                probe("super().ns.x")
+            with cm as super().table[k]:
+                probe("super().table[k]")
+            with cm as super().get(k).slot:
+                probe("super().get(k).slot")
+            with mgr as super(K, self).ns.x:
+                probe("super(K, self).ns.x")
+            return out
+
+    bad = [f"`as {want}` reported as {got!r}" for want, got in K().run().items() if got != want]
+    if bad:
+        return "F57: targets that read an attribute of super() (3.12: LOAD_SUPER_ATTR) are dropped or replaced by a local's name: " + "; ".join(bad)
+    return None
+
+
 def known_witness(wid: str, *pids: str):
     def deco(fn):
         W[wid] = fn
@@ -1265,6 +1518,53 @@ def f34():
     if res.get("body") != [("Outer", False), ("Static", False)]:
         return (f"F34: frame suspended in the body of `with Outer(): with Static():` where Static.__exit__ is a staticmethod: "
                 f"contexts {res.get('body')}; entered and not exited are [Outer, Static]")
+    return None
+
+
+@known_witness("F51", "C04")
+def f51():
+    import sys
+    import greenback
+    import trio
+    from stackscope import StackSlice, extract, extract_until
+
+    res = {}
+
+    def probe():
+        full = []
+        f = sys._getframe(0)
+        import greenlet
+        g = greenlet.getcurrent()
+        while g is not None:
+            while f is not None:
+                full.append(f)
+                f = f.f_back
+            g = g.parent
+            f = g.gr_frame if g is not None else None
+        full = full[::-1]
+        gb = [i for i, fr in enumerate(full) if str(fr.f_globals.get("__name__", "")).startswith("greenback")]
+        bad = []
+        for i in gb:
+            got = [fr.pyframe for fr in extract_until(full[i], with_contexts=False).frames]
+            if got != full[:i + 1]:
+                bad.append(f"extract_until(<{full[i].f_code.co_name}>) gave {len(got)} frames ending in "
+                           f"{got[-1].f_code.co_name if got else None}; the slice is the {i + 1} frames ending in {full[i].f_code.co_name}")
+            got = [fr.pyframe for fr in extract(StackSlice(outer=full[i], limit=1), with_contexts=False).frames]
+            if got != [full[i]]:
+                bad.append(f"StackSlice(outer=<{full[i].f_code.co_name}>, limit=1) gave {[x.f_code.co_name for x in got]}")
+        res["bad"] = bad
+        res["n"] = len(gb)
+
+    async def main():
+        await greenback.ensure_portal()
+        probe()
+
+    trio.run(main)
+    if not res.get("n"):
+        return "F51: harness: no greenback frame on the stack"
+    if res["bad"]:
+        return ("F51: a slice of the running stack whose last frame is one of greenback's own frames (shim, trampoline, await_) runs on "
+                "past its end (the greenback hooks take 'next_inner is not a Frame' to mean 'suspended here'): " + "; ".join(res["bad"][:2]))
     return None
 
 
@@ -1367,6 +1667,56 @@ def f36():
                 "unwrap_context_generator replaces the manager by an inner one: the exception is retrievable from no Stack.error")
     return None
 
+
+
+@known_witness("F54", "C06")
+def f54():
+    import stackscope
+
+    log = []
+
+    class Mgr:
+        def __getattribute__(s, n):
+            if n == "__class__":
+                log.append("Mgr")
+            return object.__getattribute__(s, n)
+
+        def __enter__(s):
+            return s
+
+        def __exit__(s, *a):
+            return False
+
+    class Ticket:
+        def __getattribute__(s, n):
+            if n == "__class__":
+                log.append("Ticket")
+            return object.__getattribute__(s, n)
+
+        def __await__(s):
+            return s
+
+        def __iter__(s):
+            return s
+
+        def __next__(s):
+            return s
+
+    async def waiter():
+        with Mgr():
+            await Ticket()
+
+    c = waiter()
+    c.send(None)
+    log.clear()
+    stackscope.extract(c, with_contexts=False)
+    n0 = len(log)
+    stackscope.extract(c)
+    if log:
+        return (f"F54: extraction ran the target's own __getattribute__ (looking up __class__: isinstance() and singledispatch fall back to "
+                f"it) {n0} times without contexts and {len(log) - n0} more times with them, on the awaited object and on the manager; an "
+                f"un-observed run makes no such call")
+    return None
 
 if __name__ == "__main__":
     wid = sys.argv[1]
